@@ -113,6 +113,7 @@ func New(id, tier string, level string, budget time.Duration) *Run {
 		r.distinct[i].m = map[uint64]struct{}{}
 	}
 	r.loadKnown()
+	current = r
 	return r
 }
 
@@ -342,7 +343,7 @@ func (r *Run) Par(n int, f func(i int)) {
 	}
 	if workers <= 1 {
 		for i := 0; i < n; i++ {
-			f(i)
+			r.guard(i, f)
 		}
 		return
 	}
@@ -357,7 +358,7 @@ func (r *Run) Par(n int, f func(i int)) {
 				if i >= n {
 					return
 				}
-				f(i)
+				r.guard(i, f)
 			}
 		}()
 	}
